@@ -158,6 +158,7 @@ def _run_part(ctx, part, stop_ev):
     t0 = time.time()
     cap = part.cap_s[tier]
     last_fail = {}
+    shrink_budget = 45 if tier == "quick" else 150
 
     def body(case):
         if stop_ev.is_set():
@@ -165,11 +166,17 @@ def _run_part(ctx, part, stop_ev):
         if time.time() - t0 > cap:
             ctx.stats.truncated = True
             return
+        if "t0" in last_fail and time.time() - last_fail["t0"] > shrink_budget:
+            # Shrinking budget exhausted: make Hypothesis converge at once and
+            # keep the smallest failing case seen so far (frozen in last_fail).
+            last_fail["frozen"] = True
+            raise Violation("shrink budget exhausted")
         try:
             info = part.run(case, ctx)
         except Violation as v:
             last_fail["case"] = case
             last_fail["msg"] = str(v)
+            last_fail.setdefault("t0", time.time())
             raise
         _account(ctx, part, case, info)
 
